@@ -169,7 +169,7 @@ type markedProvider struct {
 }
 
 func (m *markedProvider) GetNodeGroup(id string) (cloudprovider.NodeGroup, bool) {
-	m.j.Add(sim.Entry{Kind: sim.MGetNodeGroup, ASG: id})
+	m.j.AddLocked(sim.Entry{Kind: sim.MGetNodeGroup, ASG: id})
 	ng, ok := m.CloudProvider.GetNodeGroup(id)
 	if !ok || ng == nil {
 		return ng, ok
@@ -192,7 +192,7 @@ func (m *markedGroup) DeleteNodes(nodes ...*v1.Node) error {
 	if err != nil {
 		e.Err, e.ErrType = err.Error(), fmt.Sprintf("%T", err)
 	}
-	m.j.Add(e)
+	m.j.AddLocked(e)
 	return err
 }
 
@@ -202,12 +202,12 @@ func (m *markedGroup) IncreaseSize(delta int64) error {
 	if err != nil {
 		e.Err, e.ErrType = err.Error(), fmt.Sprintf("%T", err)
 	}
-	m.j.Add(e)
+	m.j.AddLocked(e)
 	return err
 }
 
 func (m *markedProvider) Refresh() error {
-	m.j.Add(sim.Entry{Kind: sim.MRefresh})
+	m.j.AddLocked(sim.Entry{Kind: sim.MRefresh})
 	return m.CloudProvider.Refresh()
 }
 
